@@ -981,6 +981,8 @@ class CoseContext(AbstractContext):
                     msg_dec = cbor2.loads(msg_enc)
                     tgt_blk.setfieldval('btsd', msg_dec[2])
                     # the decoded content no longer represents the block data
+                    # (the type code may have come from the payload binding)
+                    tgt_blk.setfieldval('type_code', tgt_blk.getfieldval('type_code'))
                     tgt_blk.remove_payload()
                     msg_dec[2] = None
 
@@ -1017,6 +1019,8 @@ class CoseContext(AbstractContext):
                     msg_dec = cbor2.loads(msg_enc)
                     tgt_blk.setfieldval('btsd', msg_dec[2])
                     # the decoded content no longer represents the block data
+                    # (the type code may have come from the payload binding)
+                    tgt_blk.setfieldval('type_code', tgt_blk.getfieldval('type_code'))
                     tgt_blk.remove_payload()
                     msg_dec[2] = None
 
